@@ -1,6 +1,7 @@
 package props
 
 import (
+	"encoding/json"
 	"fmt"
 	"sort"
 	"strconv"
@@ -429,7 +430,8 @@ func C05() int {
 	rep.Rule = "time part: all 3^4 assignments of timestamps {T0,T0+1,T0+2} to 4 events (ties, out-of-order arrival) × layouts × GOMAXPROCS {1,2}; " +
 		"queries * with size 1,2,3,10, head 1..3, and paging with page sizes 1,2,3 over the whole result. sort part: value sets (ints, floats closer " +
 		"than 1e-4, strings, sparse, numbers+text, ties) × layouts × 9 sort specifications (auto/num/str, asc/desc, two keys, sort|head) + paging under sort. " +
-		"Oracle: ordermodel on every pair of results whose relative order the requested keys determine. non-trivial = time case with ties or " +
+		"Oracle: ordermodel on every pair of results whose relative order the requested keys determine. paging processors: head(from+size) → scroller(from) over tables of ≤ n rows × " +
+		"every composition into batches × every (from, size): page == rows[from:from+size]. non-trivial = time case with ties or " +
 		"out-of-order arrival (overlapping block/segment ranges); every sort case"
 	rep.Assume = []string{"the relative order of values of different kinds (number vs text vs absent) is not asserted", "ties are free"}
 	d := &Driver[c05Job]{Rep: rep, Pool: logPool(),
@@ -473,10 +475,20 @@ func C05() int {
 		Nontrivial: func(j *c05Job) bool { return false },
 	}
 	d.Drive()
+	c05Scroll(rep, d.Budget)
 	return rep.Finish()
 }
 
 func init() {
 	Registry["C05"] = C05
-	Replayers["C05"] = MakeReplayer[c05Job]("C05", "model_checking", logPool, c05Run)
+	Replayers["C05"] = func(doc json.RawMessage) int {
+		var probe struct {
+			Batches []int `json:"batches"`
+		}
+		_ = json.Unmarshal(doc, &probe)
+		if len(probe.Batches) > 0 {
+			return MakeReplayer[c05ScrollJob]("C05", "model_checking", logPool, c05ScrollRun)(doc)
+		}
+		return MakeReplayer[c05Job]("C05", "model_checking", logPool, c05Run)(doc)
+	}
 }
